@@ -534,6 +534,16 @@ class C05(Cfg):
         path2 = os.path.join(work, "sqlck.ops")
         lib.sh([dv, "gen", "--prop", "C05sql", "--seed", str(seed), "--n", str(m), "--tier", tier, "--out", path2], check=True)
         self._work = work
+        # the model's answers for the whole stream, computed once (a driver start costs about a second): looked up per case by
+        # the oracle; a case that is not in the table (a shrunk replay) is run on its own
+        self._model_cache = {}
+        try:
+            lib.run_model(lib.model_bin(self.model_exe), path2, path2 + ".model0", timeout=1200)
+            ops2 = lib.read_lines(path2)
+            for cops, mouts in lib.split_cases(ops2, lib.read_lines(path2 + ".model0")):
+                self._model_cache["\n".join(cops)] = mouts
+        except (lib.CheckError, OSError, subprocess.TimeoutExpired):
+            pass
         return [("queries seed=%d cases=%d" % (seed, n), path, False),
                 ("sqlck seed=%d cases=%d" % (seed, m), path2, False)]
 
@@ -542,6 +552,8 @@ class C05(Cfg):
 
     # ---- the tie of C05_compile_correct: the compiled Lean model (SqlGen.render/compile, SqlSem.run) on the same case
     def _model_outs(self, ops):
+        hit = getattr(self, "_model_cache", {}).get("\n".join(ops))
+        if hit is not None: return hit
         work = getattr(self, "_work", None) or os.path.join(lib.OUT, "work", self.prop)
         os.makedirs(work, exist_ok=True)
         p = os.path.join(work, "sqlck_case.ops")
